@@ -1,5 +1,5 @@
 (* RunContainer.v — marshalling of container states and operations for the extracted model. *)
-From Model Require Export Run Container AFile Fs.
+From Model Require Export Run Container AFile Fs Access.
 Open Scope Z_scope.
 
 Definition entry_of_v (v : V) : entry :=
@@ -124,3 +124,21 @@ Definition run_fs (arg : V) : V :=
                  ok (VL [VI (outcome_code o); v_of_fs f']) else
   if k =? 3 then of_result vints (fs_open f (vint (vnth 2 arg))) else
   fail EOther.
+
+(* access-mode call sequences (C08): [[1] | [2] | [3] | [4] | [5; kind(0 MWrite,1 MSetD3,2 MSet); valid] | [6; rkind(0 RAuto,1 RPlain,2 REq)] ...]
+   -> per call [raised; disk writes so far; handle (0 none, 1 open rb, 2 open r+b, 3 closed); inside] *)
+Definition acall_of_v (v : V) : acall :=
+  let k := vint (vnth 0 v) in
+  if k =? 1 then AllowWrite else if k =? 2 then Enter else if k =? 3 then ExitNormal else
+  if k =? 4 then ExitExn else
+  if k =? 5 then Mutator (if vint (vnth 1 v) =? 0 then MWrite else if vint (vnth 1 v) =? 1 then MSetD3 else MSet) (vint (vnth 2 v) =? 1) else
+  Reader (if vint (vnth 1 v) =? 0 then RAuto else if vint (vnth 1 v) =? 1 then RPlain else REq).
+Definition handle_code (h : handle) : Z :=
+  match h with HNone => 0 | HOpen RB => 1 | HOpen RWB => 2 | HClosed => 3 end.
+Fixpoint acc_run (s : astate) (cs : list V) : list V :=
+  match cs with
+  | [] => []
+  | c :: r => let '(raised, s') := a_step s (acall_of_v c) in
+              VL [vbool raised; VI (x_disk s'); VI (handle_code (x_handle s')); vbool (x_inside s')] :: acc_run s' r
+  end.
+Definition run_access (arg : V) : V := ok (VL (acc_run a_init (vlist arg))).
